@@ -2028,7 +2028,7 @@ func genC14(g *G, sc *Scenario, tier string, seed uint64) {
 		case x < 0.70:
 			ops = append(ops, Op{K: "run", S: fmt.Sprintf("job%d", hg.Intn(3)), DS: hg.Pick([]string{"incremental", "fullsync"})})
 		case x < 0.78:
-			ops = append(ops, Op{K: "registerClient", S: hg.Pick([]string{"client1", "client2"})})
+			ops = append(ops, Op{K: "registerClient", S: hg.Pick([]string{"client1", "client2"}), N: hg.Intn(2)})
 		case x < 0.81:
 			ops = append(ops, Op{K: "deleteClient", S: hg.Pick([]string{"client1", "client2"})})
 		case x < 0.90:
